@@ -615,6 +615,7 @@ fn usage() -> ! {
     eprintln!("usage: harness gen --streams a,b,c --tier quick|thorough --seed N --out FILE [--summary FILE]");
     eprintln!("       harness lines --in FILE --out FILE     (re-evaluate the request part of stored lines)");
     eprintln!("       harness timing --out FILE");
+    eprintln!("       harness corpus --dir DIR --kind range|version --out FILE [--limit N]   (replay a fuzzer corpus)");
     eprintln!("       harness deep --out FILE [--tier quick|thorough] [--limit SECS]   (large operands, one child per family)");
     eprintln!("       harness deep-one FAMILY N | deep-input FAMILY N");
     std::process::exit(2)
@@ -688,6 +689,34 @@ fn main() {
             let out = get("--out").unwrap_or_else(|| usage());
             let s = gen::timing();
             std::fs::write(out, s).unwrap();
+        }
+        "corpus" => {
+            // replay a libFuzzer corpus (inputs that reach distinct code of the crate as it is now)
+            // through the protocol: `--kind range`: `<range a>\n<range b>\n<version>`; `--kind version`:
+            // `<version a>\n<version b>`
+            let dir = get("--dir").unwrap_or_else(|| usage());
+            let kind = get("--kind").unwrap_or("range".into());
+            let out = get("--out").unwrap_or_else(|| usage());
+            let limit: usize = get("--limit").and_then(|s| s.parse().ok()).unwrap_or(4000);
+            let f = std::fs::File::create(&out).expect("create out");
+            let mut o = Out { w: std::io::BufWriter::new(f), lines: 0, per_op: Default::default(), diag_failures: vec![] };
+            let mut files: Vec<_> = std::fs::read_dir(&dir).map(|d| d.filter_map(|e| e.ok()).map(|e| e.path()).collect()).unwrap_or_default();
+            files.sort();
+            let mut used = 0usize;
+            for p in files {
+                if used >= limit {
+                    break;
+                }
+                let Ok(bytes) = std::fs::read(&p) else { continue };
+                let Ok(s) = String::from_utf8(bytes) else { continue };
+                if s.contains('\t') && s.len() > 4000 {
+                    continue;
+                }
+                used += 1;
+                gen::corpus_case(&kind, &s, &mut o);
+            }
+            o.w.flush().unwrap();
+            eprintln!("corpus: {} inputs, {} lines", used, o.lines);
         }
         "deep" => {
             let out = get("--out").unwrap_or_else(|| usage());
